@@ -51,13 +51,19 @@ def main():
                     print(m['id'], 'PATCH FAILED', out)
                     continue
             else:
-                path = os.path.join(dst, m['file'])
-                src = open(path).read()
-                if src.count(m['old']) != 1:
-                    print(m['id'], 'ANCHOR occurs %d times' % src.count(m['old']))
-                    results[m['id']] = {'error': 'anchor occurs %d times' % src.count(m['old'])}
+                edits = m.get('edits') or [m]
+                bad = False
+                for ed in edits:
+                    path = os.path.join(dst, ed.get('file', m.get('file')))
+                    src = open(path).read()
+                    if src.count(ed['old']) != 1:
+                        print(m['id'], 'ANCHOR occurs %d times: %r' % (src.count(ed['old']), ed['old'][:60]))
+                        results[m['id']] = {'error': 'anchor occurs %d times' % src.count(ed['old'])}
+                        bad = True
+                        break
+                    open(path, 'w').write(src.replace(ed['old'], ed['new']))
+                if bad:
                     continue
-                open(path, 'w').write(src.replace(m['old'], m['new']))
             rec = {'props': {}, 'note': m.get('note', '')}
             if not args.skip_tests:
                 env = dict(os.environ, PYTHONDONTWRITEBYTECODE='1')
